@@ -32,7 +32,6 @@ COQ_SC = {"sge": "SGE", "pbs": "PBS", "slurm": "SLURM"}
 COQ_MD = {"array": "MArray", "single": "MSingle"}
 PIECE = {"sge": (0, 1, 7, 10), "pbs": (2, 3, 8, 11), "slurm": (4, 5, 9, 12)}   # header, array line, all, partial
 OPEN = "read -r -d '' SCRIPT << EOM"
-CANDIDATE_KEYS = {"num-workers-without-num-procs", "batch-ids-single-int"}
 
 TRUSTED = [
     "Coq 8.16.1 kernel (coqc, full .vo build); vm_compute for C16_templates_wf (a finite check on the template "
@@ -53,7 +52,9 @@ RULE = ("configurations = scheduler x mode x number of batches 1..8 x crop state
         "explicit ids of length 1..B (sorted on a fresh crop / shuffled on a partially grown crop)} x resource "
         "spelling; quick: one seeded state per (scheduler, mode, B) + directed cases + every spelling once; "
         "thorough: the full cross product of scheduler x mode x B x state (spellings rotating) and every spelling x "
-        "scheduler x mode; every script is executed once per header index; distinct = distinct (scheduler, mode, B, "
+        "scheduler x mode; when an obligation is broken: a seeded sample of up to 5 states per (scheduler, mode, B) "
+        "plus the directed cases and every spelling twice; explicit ids are passed as list / tuple / a single int; "
+        "every script is executed once per header index; distinct = distinct (scheduler, mode, B, "
         "state, pre-grown set, ids, spelling); non-trivial = at least one batch is intended and the crop has >= 2 "
         "batches or is not fresh")
 
@@ -124,6 +125,7 @@ def state_variants(B, rng, full):
 
 def gen_configs(tier, rng):
     full = tier == "thorough"
+    search = tier == "search"          # an obligation is broken: wider than quick, bounded (about 4 minutes)
     sp = spellings()
     cfgs = []
 
@@ -137,9 +139,11 @@ def gen_configs(tier, rng):
     for sched in SCHEDS:
         for mode in MODES:
             for B in range(1, 9):
-                variants = state_variants(B, rng, full)
-                if not full:
-                    variants = rng.sample(variants, min(2, len(variants)))
+                variants = state_variants(B, rng, full or search)
+                if search:
+                    variants = rng.sample(variants, min(5, len(variants)))
+                elif not full:
+                    variants = rng.sample(variants, min(2 if B % 2 else 1, len(variants)))
                 for state, pre, ids in variants:
                     rot += 1
                     add(sched, mode, B, state, pre, ids, CHEAP[rot % len(CHEAP)] if full else "defaults")
@@ -155,7 +159,18 @@ def gen_configs(tier, rng):
     add("slurm", "array", 5, "partial", [2, 3, 5], None)
     add("slurm", "array", 3, "explicit", [], [2])
     add("slurm", "array", 1, "fresh", [], None)
-    add("slurm", "array", 3, "explicit", [], [2], int_ids=True)   # docstring: "batch_ids : int or tuple[int]"
+    # docstring: "batch_ids : int or tuple[int]" -- the single-int spelling
+    add("slurm", "array", 3, "explicit", [], [2], int_ids=True)
+    add("sge", "array", 4, "explicit", [1, 2], [3], int_ids=True)
+    add("pbs", "array", 3, "explicit", [], [3], int_ids=True)
+    add("pbs", "single", 2, "explicit", [], [2], int_ids=True)
+    add("sge", "single", 3, "explicit", [3], [1], int_ids=True)
+    add("slurm", "single", 3, "explicit", [], [3], int_ids=True)
+    if full or search:
+        for sched in SCHEDS:
+            for mode in MODES:
+                for B in (1, 5, 8):
+                    add(sched, mode, B, "explicit", [], [rng.randint(1, B)], int_ids=True)
     for sched in SCHEDS:
         add(sched, "single", 3, "fresh", [], None)
         add(sched, "single", 4, "partial", [2, 3], None)
@@ -164,7 +179,9 @@ def gen_configs(tier, rng):
     k = 0
     for name, _, only in sp:
         combos = [(s, m) for s in (only or SCHEDS) for m in MODES]
-        if not full:
+        if search:
+            combos = [combos[k % len(combos)], combos[(k + 3) % len(combos)]]
+        elif not full:
             combos = [combos[k % len(combos)], combos[(k + 3) % len(combos)]][:2 if k % 3 == 0 else 1]
         for sched, mode in combos:
             k += 1
@@ -286,6 +303,10 @@ def prepare(cfg, root):
             except SyntaxError as e:
                 st["bad"].append(("embedded-program-not-valid-python", f"index {t}: {e.msg}: {str(e.text).strip()[:80]}"))
                 break
+    if "num_workers" in kw and f"num_workers={kw['num_workers']}" not in (prog or ""):
+        st["bad"].append(("num-workers-option-not-in-program", f"num_workers={kw['num_workers']} requested"))
+    if cfg["res"] == "num-workers-only" and "export OMP_NUM_THREADS=1\n" not in script:
+        st["bad"].append(("num-workers-without-num-procs-threads", "expected one thread per worker (OMP_NUM_THREADS=1)"))
     st["runs"] = [{"t": t, "k": k} for k, t in enumerate(indices)]
     st["observed_text"] = read_text(cfg, st)
     st["walltime_note"] = walltime_note(cfg, script)
@@ -473,9 +494,15 @@ def judge_final(cfg, st):
 
 
 def model_pair(cfg, st):
-    bids = "None" if cfg["ids"] is None else f"(Some {core.zlist(cfg['ids'])})"
+    if cfg["ids"] is None:
+        arg = "ArgNone"
+    elif cfg.get("int_ids"):
+        arg = f"(ArgInt {int(cfg['ids'][0])})"
+    else:
+        arg = f"(ArgList {core.zlist(cfg['ids'])})"
     ms = core.zlist(st["missing"])
-    expr = (f"enc_script (select {COQ_SC[cfg['sched']]} {COQ_MD[cfg['mode']]} {bids} {st['nres']} {ms} {st['B']}) {ms}")
+    expr = (f"enc_script (select {COQ_SC[cfg['sched']]} {COQ_MD[cfg['mode']]} (norm_ids {arg}) {st['nres']} {ms} "
+            f"{st['B']}) {ms}")
     txt = st["observed_text"]
     per_run = st["per_run"]
     kw = next(k for n, k, _ in spellings() if n == cfg["res"])
@@ -544,10 +571,6 @@ def sample_of(cfg, st):
     return s
 
 
-def known_keys_listed():
-    return {k["key"] for k in core.load_known() if k.get("property") == "C16"}
-
-
 def run(tier, seed):
     c = core.Check("C16", tier, seed)
     gen = core.regen()
@@ -569,10 +592,9 @@ def run(tier, seed):
     root = core.scratch_dir("xv-c16-")
     try:
         # when an obligation is broken, search the whole stated domain
-        cfgs = gen_configs("thorough" if (c.broken or tier == "thorough") else "quick", c.rng)
+        cfgs = gen_configs("thorough" if tier == "thorough" else ("search" if c.broken else "quick"), c.rng)
         sts, fails, n_exec, n_cli = pipeline(c, cfgs, root)
-        listed = known_keys_listed()
-        candidates, notes = {}, set()
+        notes = set()
         pairs, metas = [], []
         for cfg in cfgs:
             st = sts[cfg["id"]]
@@ -586,10 +608,6 @@ def run(tier, seed):
             if st.get("walltime_note"):
                 notes.add(st["walltime_note"])
             for key, msg in fails[cfg["id"]]:
-                if key in CANDIDATE_KEYS and key not in listed:
-                    candidates.setdefault(key, {"what": msg, "config": {k: cfg.get(k) for k in ("sched", "mode", "res", "ids", "int_ids")},
-                                                "count": 0})["count"] += 1
-                    continue
                 c.violation(key, msg, {"config": cfg, "observed": sample_of(cfg, st),
                                        "stderr_tail": [r.get("stderr", "")[-300:] for r in st.get("runs", [])][:3]})
             if cfg["mode"] != "cli" and st.get("script") is not None:
@@ -598,18 +616,15 @@ def run(tier, seed):
         bad, _ = core.safe_run_cases(c, "Prelude Script", pairs)
         for i in bad:
             cfg = metas[i]
-            if not [f for f in fails[cfg["id"]] if f[0] not in CANDIDATE_KEYS]:
+            if not fails[cfg["id"]]:
                 c.obligation_broken("correspondence Model/Script.v vs gen_cluster_script",
                                     {"config": cfg, "model_expr": pairs[i][0], "observed": pairs[i][1]})
         c.cov["disagreements_checked"] = len(bad)
         c.cov["model_pairs"] = len(pairs)
         c.cov["script_executions"] = n_exec
         c.cov["cli_executions"] = n_cli
-        c.cov["exhaustive"] = bool(tier == "thorough" or c.broken)
-        c.cov["candidate_findings"] = candidates
-        for k, v in candidates.items():
-            print(f"NOTE property=C16 candidate-finding {k}: {v['what']} (not listed in known_findings.json; "
-                  f"reported in evidence, not counted as a violation)")
+        c.cov["exhaustive"] = bool(tier == "thorough")
+        c.cov["search_after_broken_obligation"] = bool(c.broken and tier != "thorough")
         for n in sorted(notes):
             c.notes.append("outside the statement -- wall-time rendering: " + n)
     finally:
@@ -637,7 +652,7 @@ def replay(path):
         print("observed:", json.dumps(sample_of(cfg, st), default=str))
         if st.get("script"):
             print("----- script -----\n" + st["script"])
-        msgs = [f for f in fails[cfg["id"]] if not (f[0] in CANDIDATE_KEYS and f[0] not in known_keys_listed())]
+        msgs = fails[cfg["id"]]
         for k, m in msgs:
             print("FAILS:", k, m)
         return 1 if msgs else 0
